@@ -278,8 +278,10 @@ func RunW2Scripted(prof *Profile, plan, sched *simrt.Source, trace bool) *RunOut
 				}
 			}
 			if len(m.Set) == 0 {
-				if m.Cleared && v.CR >= 0 && v.Flags != 0 {
-					add("cleared-pool-call-failed", "", fmt.Sprintf("after %s: probe %s on a cleared pool returned flags %d (it must run nothing and succeed)", after, c, v.Flags))
+				// "executions run nothing" is all the property says about an empty or cleared pool; whether such
+				// a call reports an error is not specified (the stale-rules clause above already covers "ran something")
+				if m.Cleared && v.CR >= 0 && v.Flags&2 != 0 {
+					add("api-panic", "cleared-pool", fmt.Sprintf("after %s: probe %s on a cleared pool panicked", after, c))
 				}
 				continue
 			}
